@@ -203,8 +203,8 @@ fn style_decls(v: &str) -> Value {
             ("background-color", c) => match hex_colour(c) { Some(c) => json!({"prop": "bg", "val": c, "imp": imp}), None => return json!({"ok": false, "s": v}) },
             ("display", "none") => json!({"prop": "display", "val": "none", "imp": imp}),
             ("display", "block") => json!({"prop": "display", "val": "block", "imp": imp}),
-            ("height", "0") | ("height", "0px") => json!({"prop": "height", "val": 0, "imp": imp}),
-            ("overflow", "hidden") => json!({"prop": "overflow", "val": "hidden", "imp": imp}),
+            ("height", "0") | ("height", "0px") | ("max-height", "0") | ("max-height", "0px") => json!({"prop": "height", "val": 0, "imp": imp}),
+            ("overflow", "hidden") | ("overflow-y", "hidden") => json!({"prop": "overflow", "val": "hidden", "imp": imp}),
             _ => return json!({"ok": false, "s": v}),
         };
         out.push(d);
